@@ -283,8 +283,8 @@ def _run_tlc(module, cfg, env, workers, timeout, extra, simulate, depth, seed_, 
 
 def tlc_must_pass(res, what):
     if not res.ok:
-        raise MachineryError("TLC did not accept %s (rc=%s, violated=%s, timed_out=%s)\n%s\n%s" % (
-            what, res.rc, res.violated, res.timed_out, res.cmd, res.out[-3000:]))
+        raise MachineryError("TLC did not accept %s (rc=%s, violated=%s, timed_out=%s; output ends: %s)\n%s\n%s" % (
+            what, res.rc, res.violated, res.timed_out, " | ".join(res.out.strip().splitlines()[-4:])[-400:], res.cmd, res.out[-3000:]))
 
 
 def tlc_prints(out):
